@@ -41,27 +41,27 @@ theorem evalVars_ok (c : Ctx) (vs : Fields) (xs : List Val)
 
 /-! ### `$map`, `$filter` -/
 
-theorem mapItems_ok (f : Val → R (Option Val)) (g : Val → Val) (items : List Val)
-    (h : ∀ x ∈ items, f x = .ok (some (g x))) :
-    mapItems f items = .ok (some (items.map g)) := by
+theorem mapItems_ok (f : Val → R (Option Val)) (g : Val → Option Val) (items : List Val)
+    (h : ∀ x ∈ items, f x = .ok (g x)) :
+    mapItems f items = .ok (items.map (fun x => (g x).getD .null)) := by
   induction items with
   | nil => simp [mapItems]
   | cons x r ih =>
     simp [mapItems, h x (by simp), ih (fun y hy => h y (by simp [hy])), bind, Except.bind, pure,
       Except.pure]
 
-theorem filterItems_ok (f : Val → R (Option Val)) (g : Val → Val) (items : List Val)
-    (h : ∀ x ∈ items, f x = .ok (some (g x))) :
-    filterItems f items = .ok (some (items.filter (fun x => (g x).truthy))) := by
+theorem filterItems_ok (f : Val → R (Option Val)) (g : Val → Option Val) (items : List Val)
+    (h : ∀ x ∈ items, f x = .ok (g x)) :
+    filterItems f items = .ok (items.filter (fun x => Spec.toBool (g x))) := by
   induction items with
   | nil => simp [filterItems]
   | cons x r ih =>
     simp only [filterItems, h x (by simp), ih (fun y hy => h y (by simp [hy])), bind, Except.bind,
-      pure, Except.pure, List.filter_cons]
+      pure, Except.pure, List.filter_cons, toBoolOpt_eq]
 
 /-- the result of `$filter` is a sublist of its input, whatever the condition does -/
 theorem filterItems_sublist (f : Val → R (Option Val)) (items ys : List Val)
-    (h : filterItems f items = .ok (some ys)) : ys.Sublist items := by
+    (h : filterItems f items = .ok ys) : ys.Sublist items := by
   induction items generalizing ys with
   | nil => simp [filterItems] at h; subst h; exact List.Sublist.refl _
   | cons x r ih =>
@@ -69,22 +69,34 @@ theorem filterItems_sublist (f : Val → R (Option Val)) (items ys : List Val)
     cases hx : f x with
     | error e => simp [hx] at h
     | ok y =>
-      cases y with
-      | none => simp [hx, pure, Except.pure] at h
-      | some y =>
-        simp only [hx] at h
-        cases hr : filterItems f r with
-        | error e => simp [hr] at h
-        | ok zs =>
-          cases zs with
-          | none => simp [hr, pure, Except.pure] at h
-          | some zs =>
-            simp only [hr, pure, Except.pure, Except.ok.injEq, Option.some.injEq] at h
-            have := ih zs hr
-            subst h
-            cases y.truthy
-            · exact List.Sublist.cons _ this
-            · exact List.Sublist.cons_cons _ this
+      simp only [hx] at h
+      cases hr : filterItems f r with
+      | error e => simp [hr] at h
+      | ok zs =>
+        simp only [hr, pure, Except.pure, Except.ok.injEq] at h
+        have := ih zs hr
+        subst h
+        cases toBoolOpt y
+        · exact List.Sublist.cons _ this
+        · exact List.Sublist.cons_cons _ this
+
+/-- the result of `$map` has one element per item -/
+theorem mapItems_length (f : Val → R (Option Val)) (items ys : List Val)
+    (h : mapItems f items = .ok ys) : ys.length = items.length := by
+  induction items generalizing ys with
+  | nil => simp [mapItems] at h; subst h; rfl
+  | cons x r ih =>
+    simp only [mapItems, bind, Except.bind] at h
+    cases hx : f x with
+    | error e => simp [hx] at h
+    | ok y =>
+      simp only [hx] at h
+      cases hr : mapItems f r with
+      | error e => simp [hr] at h
+      | ok zs =>
+        simp only [hr, pure, Except.pure, Except.ok.injEq] at h
+        subst h
+        simp [ih zs hr]
 
 /-- **map_spec** (default variable name `this`) -/
 theorem map_spec (c : Ctx) (inp body : Val) :
@@ -93,7 +105,7 @@ theorem map_spec (c : Ctx) (inp body : Val) :
         match r with
         | none | some .null => .ok (some .null)
         | some (.arr items) =>
-          (mapItems (fun item => eval (c.bind "this" item) body) items).map (·.map .arr)
+          (mapItems (fun item => eval (c.bind "this" item) body) items).map (fun ys => some (.arr ys))
         | some _ => .error .opFail) := by
   have h1 : classify "$map" = .array := by decide
   have h2 : mode "$map" (.doc [("input", inp), ("in", body)]) = .shaped := by
@@ -114,7 +126,7 @@ theorem map_spec_as (c : Ctx) (inp body : Val) (name : String) :
         match r with
         | none | some .null => .ok (some .null)
         | some (.arr items) =>
-          (mapItems (fun item => eval (c.bind name item) body) items).map (·.map .arr)
+          (mapItems (fun item => eval (c.bind name item) body) items).map (fun ys => some (.arr ys))
         | some _ => .error .opFail) := by
   have h1 : classify "$map" = .array := by decide
   have h2 : mode "$map" (.doc [("input", inp), ("as", .str name), ("in", body)]) = .shaped := by
@@ -129,15 +141,16 @@ theorem map_spec_as (c : Ctx) (inp body : Val) (name : String) :
     | some v => cases v <;> simp [Except.map, pure, Except.pure] <;> (split <;> rfl)
 
 /-- **filter_spec**: the condition is evaluated under the binding of each item; the item is kept
-    when the value is *Python*-truthy (known finding `filtertruth`); a missing condition value
-    makes the whole result missing -/
+    when the value is true (`toBool`, a missing value being false); a null or missing input gives
+    null -/
 theorem filter_spec (c : Ctx) (inp cond : Val) :
     eval c (.doc [("$filter", .doc [("input", inp), ("cond", cond)])]) =
       (eval c inp).bind (fun r =>
         match r with
-        | none => .ok none
+        | none | some .null => .ok (some .null)
         | some (.arr items) =>
-          (filterItems (fun item => eval (c.bind "this" item) cond) items).map (·.map .arr)
+          (filterItems (fun item => eval (c.bind "this" item) cond) items).map
+            (fun ys => some (.arr ys))
         | some v => iterErr v) := by
   have h1 : classify "$filter" = .array := by decide
   have h2 : mode "$filter" (.doc [("input", inp), ("cond", cond)]) = .shaped := by
